@@ -197,6 +197,24 @@ PROPS["C11"] = {
     "assumptions": INST_ASSUME,
 }
 
+PROPS["C15"] = {
+    "streams": [{"name": "inst"}, {"name": "view"}],
+    "model_is_spec": ["inst", "view"],
+    "spec_theorem": "the model forwards exactly the parent's queued TLVs in order within the room (C15.fwdLoop_spec, announce_suffix), emits decodable Announces <= 1024 octets (C15.announce_fits, announce_decodes) and discards looping Announces without effect (C15.loop_discarded)",
+    "rule": "inst / view: Announces with TLV suffixes of every type class (PATH_TRACE, ALTERNATE_TIME_OFFSET, organisation / experimental "
+            "propagating and non-propagating types), value lengths 0..950, several per Announce, from the parent, other acceptable masters and "
+            "unacceptable ones, path traces of 0..129 entries with and without the own identity; announce timers with host queues of zero to "
+            "several forwarded TLVs (real ones fed back plus synthetic ones sized equal to / one above / one below the remaining room, from the "
+            "parent and other senders), strict and loose providers, one to three master ports. Compared: ForwardTLV actions, every emitted "
+            "Announce bit-exact, the number of queue items consumed, path trace data set. Independent oracle: ForwardTLV actions = the propagating "
+            "TLVs of the Announce in order; emitted suffix = [PATH_TRACE(stored path + own)] + the consumed queue items of the parent in order; "
+            "head left behind does not fit; size <= 1024; own parser accepts; the announce timer never panics; a looping Announce changes nothing. "
+            "distinct = distinct ops with a ForwardTLV action or an Announce emitted with a non-empty queue or path trace",
+    "explanation": "Lean: forward_actions, fwdLoop_spec, announce_fits, announce_decodes, path trace theorems, loop_discarded",
+    "assumptions": INST_ASSUME + ["the daemon's TlvForwarder (tokio broadcast channel, lag and overflow) is modelled as the queue the host passes to the announce timer; its own code is not in the model",
+                   "queued TLVs were produced by this library's parser (even value length < 65536, type < 65536): TlvWF"],
+}
+
 
 def split_obs(obs):
     """(items, status, state) of an instance-stream observation line"""
@@ -245,6 +263,17 @@ def projection(pid, stream, profile):
             st = state_part(obs)
             return " ; ".join(keep) + " | " + m + " | " + st
         return f8
+    if pid == "C15":
+        def f15(op, obs):
+            parts = obs.split(" | ")
+            items = parts[0].split(" ; ")
+            keep = [it for it in items if ":fwd " in it or (":send gen" in it and len(frame_tok(it)) >= 128 and frame_tok(it)[1] == "b")]
+            pt = " | ".join(x for x in parts if x.startswith("PT ") or x.startswith("R "))
+            if not keep and " TMR ann" not in op and "GEN 0b" not in op and "GEN 1b" not in op:
+                return None
+            q = parts[0].rsplit(" q=", 1)[1] if " q=" in parts[0] else ""
+            return " ; ".join(keep) + " q=" + q + " | " + pt
+        return f15
     if pid == "C11":
         def f11(op, obs):
             parts = obs.split(" | ")
